@@ -42,7 +42,8 @@ def sym_state(ctx, net, prefix):
     for d in net.devices:
         col = lambda tag: [ctx.int('%s_%s_%s%d' % (prefix, d.label.replace(' ', '_')[:6], tag, i), 0, 65535) for i in range(4)]
         d.color = col('c')
-        d.power = 65535 if ctx.choose(2, prefix + 'power') else 0
+        # off, on as LIFX reports it, on as the project's own fakes and LightSet report it (any non-zero level is on)
+        d.power = (0, 65535, 1)[ctx.choose(3 if prefix == 'cap' else 2, prefix + 'power')]
         d.zones = [col('z%d' % i) for i in range(len(d.zones))]
         d.cells = [col('m%d' % i) for i in range(len(d.cells))]
         st[d.label] = {'color': list(d.color), 'power': d.power, 'zones': [list(z) for z in d.zones],
@@ -107,7 +108,7 @@ def state_constraints(captured, net2):
         if d.kind == 'plain':
             for i in range(4):
                 cons.append(('%s colour[%d]' % (d.label, i), symx.eq(d.color[i], cap['color'][i])))
-            cons.append(('%s power' % d.label, symx.eq(d.power, cap['power'])))
+            cons.append(('%s power' % d.label, symx.eq(65535 if d.power else 0, 65535 if cap['power'] else 0)))
         elif d.kind == 'multizone':
             for zi, z in enumerate(cap['zones']):
                 for i in range(4):
@@ -182,7 +183,7 @@ def replay_concrete(specs, vals, powers):
     try:
         captured, net2, text, errors, aborted = capture_and_replay(
             specs, lambda net: conc_state(net, vals, 'cap', powers),
-            lambda net: conc_state(net, vals, 'now', {k: 65535 - v for k, v in powers.items()}))
+            lambda net: conc_state(net, vals, 'now', {k: 0 if v else 65535 for k, v in powers.items()}))
         if errors is not None:
             return (errors if errors.startswith('capturing') else 'does not compile: %s' % errors.strip()), text
         if aborted:
